@@ -14,7 +14,7 @@ from typing import TYPE_CHECKING
 
 from exabgp.protocol.ip import IP
 from exabgp.protocol.family import Family
-from exabgp.bgp.message.update.collection import validate_announce_nlri
+from exabgp.bgp.message.update.collection import validate_announce_route
 
 from exabgp.logger import log, lazymsg
 
@@ -34,7 +34,7 @@ def validate_announce(route: 'Route') -> str | None:
     Provides early validation at API level for immediate feedback.
     Uses shared validation logic from collection.py.
     """
-    return validate_announce_nlri(route.nlri, route.nexthop)
+    return validate_announce_route(route)
 
 
 def parse_sync_mode(command: str, reactor: 'Reactor', service: str) -> tuple[str, bool]:
